@@ -22,7 +22,7 @@ ASSUMPTIONS = ["quantified over calendar-gated child stacks only (the shadow als
 
 def plan(tier):
     q = tier == "quick"
-    return [dict(unit="nested", n=220 if q else 5000, builds=["py", "so"], case_timeout=240)]
+    return [dict(unit="nested", n=220 if q else 2000, builds=["py", "so"], case_timeout=240)]
 
 
 def floors(tier):
